@@ -62,7 +62,7 @@ def main(argv):
             p = os.path.join(sd, name, "patch.diff")
             if os.path.isfile(p):
                 meta = json.load(open(os.path.join(sd, name, "meta.json")))
-                props = [meta.get("breaks_property", name[:3])]
+                props = meta.get("check_with") or [meta.get("breaks_property", name[:3])]
                 jobs.append(("seeded", name, props, p))
     if want_reverts:
         kf = json.load(open(os.path.join(HERE, "known_findings.json")))
